@@ -319,7 +319,7 @@ def register(M, get_sched):
     M.clone_hooks['WeakV'] = lambda ex, w: WeakV(w.box)
 
     # atomics
-    @M.rx(r'^(?:std::sync::atomic::|core::sync::atomic::)?Atomic(U32|U64|Usize|I32|I64|Bool)::(fetch_add|fetch_sub|load|store|new|swap|compare_exchange)$', 'atomics')
+    @M.rx(r'^(?:std::sync::atomic::|core::sync::atomic::)?Atomic(U32|U64|Usize|I32|I64|Bool|::<\w+>)::(fetch_add|fetch_sub|load|store|new|swap|compare_exchange)$', 'atomics')
     def _atomic(ex, m, args, callee, dest):
         what = m.group(2)
         if what == 'new':
